@@ -21,6 +21,7 @@
 #include <iostream>
 #include <exception>
 #include <unistd.h>
+#include <signal.h>
 
 #include <instance.h>
 #include <functions.h>
@@ -280,10 +281,25 @@ static void enc(std::istringstream& is) {
            x < 0 ? "true" : "false", hx(mg).c_str(), v1.c_str(), v2.c_str(), backok ? "true" : "false", (long long)back);
 }
 
+// A crash of the code under test must not lose the trace: flush what was recorded, add a Crashed event,
+// tell the driver which input line was being processed, and leave.  The driver resumes after that job.
+static volatile long g_lineno = 0;
+static void on_crash(int sig) {
+    fflush(stdout);
+    char buf[128];
+    int n = snprintf(buf, sizeof buf, "{\"e\":\"Crashed\",\"sig\":%d}\n", sig);
+    if (write(1, buf, n) < 0) {}
+    n = snprintf(buf, sizeof buf, "CRASH line=%ld sig=%d\n", g_lineno, sig);
+    if (write(2, buf, n) < 0) {}
+    _exit(99);
+}
+
 int main(int argc, char** argv) {
     std::string line;
     setvbuf(stdout, nullptr, _IOFBF, 1 << 20);
+    for (int sg : {SIGSEGV, SIGFPE, SIGABRT, SIGBUS, SIGILL}) signal(sg, on_crash);
     while (std::getline(std::cin, line)) {
+        ++g_lineno;
         if (line.empty()) continue;
         if (line.compare(0, 4, "RAW ") == 0) { printf("%s\n", line.c_str() + 4); continue; }
         std::istringstream is(line);
